@@ -32,6 +32,14 @@ def make_scratch(dst):
     # dev-dependencies (criterion, liblzma) and the bench target are not needed and slow the build
     t = re.sub(r"\[dev-dependencies\].*?(?=\n\[)", "", t, flags=re.S)
     t = re.sub(r"\[\[bench\]\].*?(?=\n\[)", "", t, flags=re.S)
+    if os.environ.get("VERIF_REAL_CRC") != "1":
+        # dependency contracts: crc / sha2 are replaced by shims (assumed: checksum = deterministic function of bytes)
+        shims = os.path.join(VERIF, "shims")
+        t = re.sub(r'crc = \{[^}]*\}', 'crc = { path = "%s/crc", optional = true }' % shims, t)
+        t = re.sub(r'sha2 = \{[^}]*\}', 'sha2 = { path = "%s/sha2", optional = true }' % shims, t)
+        lock = os.path.join(dst, "Cargo.lock")
+        if os.path.exists(lock):
+            os.remove(lock)
     if "[lints.rust]" not in t:
         t += '\n[lints.rust]\nunexpected_cfgs = { level = "allow", check-cfg = ["cfg(kani)", "cfg(verif_replay)"] }\n'
     open(ct, "w").write(t)
@@ -88,7 +96,7 @@ def inject_harness_file(scratch, rel, log):
             for n in names)
         addition = (
             "\n\n// ---- injected by /verif (insert-only) ----\n"
-            "#[cfg(any(kani, verif_replay))]\n#[allow(unused, clippy::all)]\nmod verif_kani {\n    use super::*;\n    use crate::vk;\n"
+            "#[cfg(any(kani, verif_replay))]\n#[allow(unused, clippy::all)]\npub(crate) mod verif_kani {\n    use super::*;\n    use crate::vk;\n"
             + rewrite_attrs(text) + "\n" + tests + "\n}\n")
     open(spath, "w").write(src + addition)
     log.append({"file": "src/" + rel, "appended_lines": addition.count("\n"), "harness_sha256": sha256(text)})
